@@ -8,7 +8,15 @@
 #include "include/env_proto.h"
 #undef nni_list_first
 #undef nni_list_empty
-size_t g_nt; sub0_topic *g_t0, *g_t1, *g_t2;
-#define VP_LIST_NODES X(g_t0) X(g_t1) X(g_t2)
 #include "modules/sub/lists_post.h"
 #include "modules/sub/env.h"
+/* ghost names of the skeleton built by the harness (modules/sub/harness.c) */
+sub0_sock  *g_s;   /* the socket; its default context is g_s->master */
+sub0_pipe  *g_pp;   /* a pipe of the socket */
+sub0_ctx   *g_c1;  /* the second context (exists when g_nc == 2) */
+size_t      g_nc;  /* number of contexts on the socket's list: 1 or 2 */
+size_t      g_nt, g_nu;           /* number of topics of the master / the second context */
+sub0_topic *g_t0, *g_t1, *g_t2;   /* topics of the master context, in list order */
+sub0_topic *g_u0, *g_u1, *g_u2;   /* topics of the second context */
+bool        g_m0, g_m1;           /* ORACLE value for the arriving body, per context (ghost equation) */
+#include "modules/sub/oracle.h"
